@@ -119,6 +119,12 @@ func wodCheck(e *Context, addLine IntType, pool IntType, points IntType, thresho
 
 // RollWoD 返回: 成功数，总骰数，轮数，细节
 func RollWoD(src *rand.PCGSource, addLine IntType, pool IntType, points IntType, threshold IntType, isGE bool, mode int) (IntType, IntType, IntType, string) {
+	return rollWoD(src, addLine, pool, points, threshold, isGE, mode, nil)
+}
+
+// rollWoD budget 不为 nil 时，每一轮开始前以本轮骰数调用一次；返回 true 表示超出算力上限，停止加骰
+// (加骰轮数没有上界，例如取最大值时每个骰子都会触发加骰，必须计入算力)
+func rollWoD(src *rand.PCGSource, addLine IntType, pool IntType, points IntType, threshold IntType, isGE bool, mode int, budget func(count IntType) bool) (IntType, IntType, IntType, string) {
 	var details []string
 	addTimes := 1
 
@@ -127,6 +133,9 @@ func RollWoD(src *rand.PCGSource, addLine IntType, pool IntType, points IntType,
 	successCount := IntType(0)
 
 	for times := 0; times < addTimes; times++ {
+		if budget != nil && budget(pool) {
+			break
+		}
 		addCount := IntType(0)
 		var detailsOne []string
 
@@ -218,6 +227,11 @@ func doubleCrossCheck(ctx *Context, addLine, pool, points IntType) bool {
 }
 
 func RollDoubleCross(src *rand.PCGSource, addLine IntType, pool IntType, points IntType, mode int) (IntType, IntType, IntType, string) {
+	return rollDoubleCross(src, addLine, pool, points, mode, nil)
+}
+
+// rollDoubleCross budget 的含义同 rollWoD
+func rollDoubleCross(src *rand.PCGSource, addLine IntType, pool IntType, points IntType, mode int, budget func(count IntType) bool) (IntType, IntType, IntType, string) {
 	var details []string
 	addTimes := 1
 
@@ -226,6 +240,9 @@ func RollDoubleCross(src *rand.PCGSource, addLine IntType, pool IntType, points 
 	resultDice := IntType(0)
 
 	for times := 0; times < addTimes; times++ {
+		if budget != nil && budget(pool) {
+			break
+		}
 		addCount := IntType(0)
 		detailsOne := []string{}
 		maxDice := IntType(0)
